@@ -55,7 +55,7 @@ class World(object):
     def time(self):
         # strictly increasing so that zero-timeout polling loops terminate
         self.ticks += 1
-        return self.clock + self.ticks * 1e-9
+        return self.clock + self.ticks * 1e-3
 
     def sleep(self, s):
         self.clock += s
@@ -256,6 +256,11 @@ class VirtualCondition(threading.Condition):
 
     def wait(self, timeout=None):
         w = World.cur
+        hook = getattr(w, 'on_wait', None) if w is not None else None
+        if hook is not None:
+            # a blocked thread is a pre-emption point: the harness may let other threads act now
+            if hook(self, timeout):
+                return True          # notified
         if timeout is None:
             from sx.core import PathEnd
             raise PathEnd()
